@@ -52,12 +52,29 @@ def snap_compute(m):
 
 
 _fresh = {}
+VFAC = {1: 1.0 + 0j, 2: 0.5 + 1.5j}          # voltage settings of the specification: factor on every generator
 
 
-def fresh(arch, f, what, req=None):
-    key = (arch, f, what, req)
+def set_volts(m, v):
+    if not hasattr(m, '_verif_v0'):
+        m._verif_v0 = [complex(s.voltage) for s in m.sources]
+    for s, v0 in zip(m.sources, m._verif_v0):
+        s.voltage = v0 * VFAC[v]
+
+
+def add_load(m, n):
+    from mininec.mininec import Impedance_Load
+    m.register_load(Impedance_Load(30.0 + 40.0j * n), min(1, len(m.pulses) - 1))
+
+
+def fresh(arch, f, what, req=None, v=1, ld=0):
+    key = (arch, f, what, req, v, ld)
     if key not in _fresh:
         m = M.ARCHETYPES[arch][0](f)
+        if v != 1:
+            set_volts(m, v)
+        for n in range(1, ld + 1):
+            add_load(m, n)
         m.compute()
         if what == 'compute':
             _fresh[key] = snap_compute(m)
@@ -80,6 +97,7 @@ def replay_history(args):
         del MM._verif_trace[:]
     try:
         m = None
+        v, ld = 1, 0
         for k, st in enumerate(hist):
             op = st['op']
             f = FMAP[st['f']]
@@ -87,17 +105,23 @@ def replay_history(args):
                 m = M.ARCHETYPES[arch][0](f)
             elif op == 'SetF':
                 m.f = f
+            elif op == 'SetV':
+                v = st['v']
+                set_volts(m, v)
+            elif op == 'AddLoad':
+                ld = st['n']
+                add_load(m, ld)
             elif op == 'Compute':
                 m.compute()
-                d = same(snap_compute(m), fresh(arch, f, 'compute'))
+                d = same(snap_compute(m), fresh(arch, f, 'compute', None, v, ld))
                 if d:
                     out['mism'].append(dict(step=k, op=op, fields=d, prev=prev_ops(hist, k)))
             elif op == 'FarField':
-                d = same(do_ff(m, st['req']), fresh(arch, f, 'ff', st['req']))
+                d = same(do_ff(m, st['req']), fresh(arch, f, 'ff', st['req'], v, ld))
                 if d:
                     out['mism'].append(dict(step=k, op=op, fields=d, prev=prev_ops(hist, k)))
             elif op == 'NearField':
-                d = same(do_nf(m, st['req']), fresh(arch, f, 'nf', st['req']))
+                d = same(do_nf(m, st['req']), fresh(arch, f, 'nf', st['req'], v, ld))
                 if d:
                     out['mism'].append(dict(step=k, op=op, fields=d, prev=prev_ops(hist, k)))
             out['steps'] += 1
@@ -114,6 +138,7 @@ def prev_ops(hist, k):
     ops = [h['op'] for h in hist[:k]]
     fs = {h['f'] for h in hist[:k + 1]}
     return dict(freq_changed=len(fs) > 1, computed_before='Compute' in ops,
+                volts_changed='SetV' in ops, load_added='AddLoad' in ops,
                 same_f_recompute=any(h['op'] == 'Compute' and h['f'] == hist[k]['f']
                                      for h in hist[:k]))
 
@@ -152,7 +177,7 @@ def validate_traces(chk, traces, name='c14'):
     cfg = os.path.join(wd, 'Trace.cfg')
     with open(cfg, 'w') as fp:
         fp.write('CONSTANTS Freqs = {%s}\n Wires = {%s}\n FFReqs = {0}\n NFReqs = {0}\n MaxLen = 1\n'
-                 ' ZintSurvives = FALSE\n AllowRaw = TRUE\n'
+                 ' ZintSurvives = FALSE\n AllowRaw = TRUE\n Volts = {1}\n MaxLoads = 0\n ZKept = FALSE\n'
                  'INIT TInit\nNEXT TNext\nCONSTRAINT Constr\nPOSTCONDITION Post\nCHECK_DEADLOCK FALSE\n'
                  % (','.join(str(i) for i in range(1, nf + 1)),
                     ','.join(str(i) for i in range(1, nw + 1))))
@@ -277,7 +302,7 @@ def run_to_run(args):
 def run(tier):
     chk = C.Check(PID, tier, 'model_checking')
     chk.assumptions = [
-        'TLC 1.8 on spec/Lifecycle.tla (all well-formed histories up to MaxLen over 3 frequencies, 2 far-field and 1-2 near-field requests) and spec/TraceLifecycle.tla',
+        'TLC 1.8 on spec/Lifecycle.tla (all well-formed histories up to MaxLen over 3 frequencies, 2 voltage settings, one load added after construction, 2 far-field and 1-2 near-field requests) and spec/TraceLifecycle.tla',
         'archetype models of harness/models.py cover every load kind (skin effect by conductivity and resistivity, insulation, impedance, RLC, trap, Laplace), free space, ideal and real ground',
         'bit-exact comparison with fresh objects assumes single-threaded BLAS (bin/check sets OMP/OPENBLAS/MKL_NUM_THREADS=1)',
         'hooks in /repo guarded by PYMININEC_VERIF record SetF/FillZ/CacheFill/CacheUse/ApplyLoads/FillRhs/Solve/FarField/NearField']
@@ -292,6 +317,14 @@ def run(tier):
     hists = list(res.printed())
     if not hists:
         raise C.Machinery('no histories dumped')
+    # the invariants keep their teeth: the two design variants the code does NOT implement (skin-effect cache
+    # surviving a frequency change = the code before fix e3d5934; compute keeping an existing matrix) must be
+    # refuted by TLC
+    for vcfg in ('MC_Lifecycle_faithful.cfg', 'MC_Lifecycle_zkept.cfg'):
+        rv_ = C.tlc('Lifecycle', vcfg, name='variant-' + vcfg[13:-4])
+        if rv_.violated != 'NoStaleUse':
+            raise C.Machinery('TLC no longer refutes the design variant %s (NoStaleUse vacuous?): %s' % (vcfg, rv_.out[-800:]))
+        chk.cov['refuted_variant_' + vcfg[13:-4]] = rv_.violated
     rnd = C.rng('c14')
     chk.cov['histories_enumerated_by_tlc'] = len(hists)
     cap = 1500 if tier == 'quick' else 20000
